@@ -150,7 +150,8 @@ def name_scheme(tree: ast.Module) -> str:
 
 
 def refuses_duplicates(tree: ast.Module) -> bool:
-    """`parallelise` raises ValueError inside `if cache is not None:` when `len(set(keys)) != len(keys)`"""
+    """`parallelise` raises inside `if cache is not None:` when `len(set(T)) != len(T)` for `T = [k for k, _ in inputs]`
+    (whatever the local list is called)"""
     fn = next((n for n in tree.body if isinstance(n, ast.FunctionDef) and n.name == "parallelise"), None)
     if fn is None:
         raise Unsupported("parallelise not found")
